@@ -62,8 +62,9 @@ type Run struct {
 
 	known map[string]string // key -> text from KNOWN_FINDINGS.txt
 
-	progress *os.File
-	casesRun int64
+	progress     *os.File
+	stoppedEarly bool
+	casesRun     int64
 
 	quiet     bool
 	collected []map[string]any
@@ -153,6 +154,9 @@ func (r *Run) RNG(name string) *rand.Rand {
 // A filter selects a case when either is a path-prefix of the other, so that
 // replaying "ds3/q17" runs the dataset case "ds3" and inside it only "ds3/q17".
 func (r *Run) Want(id string) bool {
+	if r.enough() {
+		return false
+	}
 	if r.Only == "" {
 		return true
 	}
@@ -352,6 +356,39 @@ func (r *Run) Violation(caseID, kind string, detail any) {
 	_ = os.WriteFile(path, b, 0o644)
 	fmt.Printf("VIOLATION property=%s replay=%s\n", r.Prop, path)
 	fmt.Fprintf(os.Stderr, "violation %s case=%s kind=%s\n", r.Prop, caseID, kind)
+	if p := os.Getenv("VERIF_PROGRESS"); p != "" {
+		// the supervisor reads this when the check does not reach its end (watchdog, crash): violations that were
+		// reported stay violations
+		_ = os.WriteFile(p+".violations", []byte(fmt.Sprint(n)), 0o644)
+	}
+}
+
+// MaxViolations is the number of violations after which the remaining cases of a run are skipped: a tree that breaks
+// a property this often has been shown to break it, and changes that make the code under test slow or explosive
+// would otherwise keep the run busy until its watchdog. Never reached on a tree where the property holds.
+var MaxViolations = 60
+
+func (r *Run) enough() bool {
+	r.mu.Lock()
+	defer r.mu.Unlock()
+	if r.violations >= MaxViolations && !r.quiet {
+		if !r.stoppedEarly {
+			r.stoppedEarly = true
+			r.extra["stopped_early"] = fmt.Sprintf("remaining cases skipped after %d violations", r.violations)
+		}
+		return true
+	}
+	return false
+}
+
+// ForceViolations makes the run count n violations that another process reported (used by the supervisor when the
+// check process printed VIOLATION lines and then did not reach its end).
+func (r *Run) ForceViolations(n int) {
+	r.mu.Lock()
+	if n > r.violations {
+		r.violations = n
+	}
+	r.mu.Unlock()
 }
 
 // KnownFinding handles a refuting execution that matches the recogniser of a
